@@ -231,7 +231,7 @@ def hyp_search(
             return
         if classify is not None:
             kid = classify(case, msg)
-            if kid:
+            if kid and kid in open_finding_ids(kid.split("-")[0]):
                 stats.known[kid] += 1
                 return
         last["case"] = case
@@ -270,8 +270,13 @@ def load_findings(pid):
     return [e for e in data.get("findings", []) if e.get("property") == pid]
 
 
+_OPEN_CACHE = {}
+
+
 def open_finding_ids(pid):
-    return {e["id"] for e in load_findings(pid) if e.get("status") == "open"}
+    if pid not in _OPEN_CACHE:
+        _OPEN_CACHE[pid] = {e["id"] for e in load_findings(pid) if e.get("status") == "open"}
+    return _OPEN_CACHE[pid]
 
 
 # ---------------------------------------------------------------------------
